@@ -188,6 +188,10 @@ def b_scenarios():
                     for rebuild in (False, True):
                         out.append({'layer': 'b', 'searcher': searcher, 'main': main, 'pyc': pyc, 'distract': distract, 'rebuild': rebuild,
                                     'name': 'AAA-MIB', 'skew': 0})
+    # a searcher with two extensions: any combination of absent / older / equal / newer / directory under either of them
+    for main in MAIN:
+        for alt in ('file-1', 'file0', 'file+1', 'dir'):
+            out.append({'layer': 'b', 'searcher': 'any', 'main': main, 'pyc': 'none', 'distract': False, 'rebuild': False, 'name': 'AAA-MIB', 'skew': 0, 'alt': alt})
     # times past 2**31 seconds (19 January 2038): still representable in the 32-bit field of a byte-code header
     for searcher in ('any', 'py', 'pkg'):
         for main in MAIN:
@@ -256,6 +260,16 @@ def _populate_b(scn, d):
             os.utime(p, (T0 + dt + skew, T0 + dt + skew))
         elif m == 'dir':
             os.makedirs(os.path.join(d, name + ext))
+        if scn.get('alt'):
+            # a searcher configured with two extensions: a copy under the other (first-listed) extension
+            p2 = os.path.join(d, name + '.jsn')
+            if scn['alt'] == 'dir':
+                os.makedirs(p2)
+            else:
+                with open(p2, 'w') as f:
+                    f.write('x = 2\n')
+                dt2 = int(scn['alt'][4:])
+                os.utime(p2, (T0 + dt2, T0 + dt2))
         k = scn['pyc']
         if k != 'none':
             p = os.path.join(d, name + '.pyc')
@@ -333,6 +347,8 @@ def _expected_b(scn):
     skew = scn.get('skew', 0)
     if scn['main'].startswith('file') and int(scn['main'][4:]) + skew >= 0:
         fresh = True
+    if scn.get('alt', '').startswith('file') and int(scn['alt'][4:]) >= 0:
+        fresh = True
     if scn['searcher'] != 'any' and scn['pyc'] in ('pyc0', 'pyc+1'):
         fresh = True
     return 'fresh' if fresh else 'stale'
@@ -360,7 +376,7 @@ def run_b(scn):
             d = os.path.join(root, 'dst')
         _populate_b(scn, d)
         if scn['searcher'] == 'any':
-            s = AnyFileSearcher(d).setOptions(exts=['.json'])
+            s = AnyFileSearcher(d).setOptions(exts=['.jsn', '.json'] if scn.get('alt') else ['.json'])
         elif scn['searcher'] == 'py':
             s = PyFileSearcher(d)
         else:
